@@ -187,7 +187,7 @@ def normalise(toks, stats=None):
             if op is None:
                 new += normalise(args[0], stats)
             else:
-                new += normalise(args[0], stats) + [Tok(c, t.start, t.end, "tok", t.region) for c in op] + normalise(args[1], stats)
+                new += normalise(args[0], stats) + [Tok(op, t.start, t.end, "tok", t.region)] + normalise(args[1], stats)
             new.append(Tok(")", toks[j].start, toks[j].end, "tok", toks[j].region))
             # the synthesised group must be replaced as a whole: give every token the whole span
             for k in new:
@@ -401,9 +401,13 @@ def assemble_fragment(text, fname, repo, stats, srcs):
             if op == "equal": continue
             new = " ".join(render_src(b[j1:j2]))
             if op in ("replace", "delete"):
-                if any(t.region is not None for t in a[i1:i2]):
-                    raise AssemblyError("conflict: repository change inside a rewritten region (%s) of %s::%s" % (
-                        [t.region[2] for t in a[i1:i2] if t.region][0], it.container, it.name))
+                # a rewritten (R) region may disappear as a whole; a partial overlap is a conflict
+                for reg in set(t.region for t in a[i1:i2] if t.region is not None):
+                    total = sum(1 for t in a if t.region == reg)
+                    inside = sum(1 for t in a[i1:i2] if t.region == reg)
+                    if inside != total:
+                        raise AssemblyError("conflict: repository change inside a rewritten region (%s) of %s::%s" % (
+                            reg[2], it.container, it.name))
                 # remove each token individually, put replacement at the first
                 first = True
                 done = set()
@@ -472,8 +476,11 @@ def assemble_unit(fragments, repo, outpath=None):
     linemap = []   # (first generated line, last generated line, fragment path, item or None)
     for fp in fragments:
         text = open(fp, encoding="utf-8").read()
-        gen, items, rep = assemble_fragment(text, fp, repo, stats, srcs)
-        audited += audit_fragment(gen, fp, repo, srcs)
+        try:
+            gen, items, rep = assemble_fragment(text, fp, repo, stats, srcs)
+            audited += audit_fragment(gen, fp, repo, srcs)
+        except ValueError as e:
+            raise AssemblyError("%s: %s" % (fp, e))
         texts.append((fp, gen))
         for it in items: it.fragment = fp
         all_items += items
